@@ -1068,6 +1068,50 @@ impl ProofX {
                 }
             }
         }
+        // a path verified against ANOTHER root smuggled into the batch (every honest path of every
+        // neighbour trie, before and after every honest path of this trie): refused, or the true root
+        {
+            let mut own: Vec<(usize, nomt_core::proof::VerifiedPathProof)> = vec![];
+            for (gi, g) in fam.iter().enumerate() {
+                if let Ok(vp) = t.honest(g).verify::<H>(g.view_bits::<Msb0>(), t.root) {
+                    if !own.iter().any(|(_, o)| o.path() == vp.path()) {
+                        own.push((gi, vp));
+                    }
+                }
+            }
+            for nb in neighbours.iter().filter(|nb| nb.root != t.root) {
+                for (fi, g) in fam.iter().enumerate() {
+                    let Ok(foreign) = nb.honest(g).verify::<H>(g.view_bits::<Msb0>(), nb.root) else { continue };
+                    for (gi, vp) in &own {
+                        for foreign_first in [false, true] {
+                            for with_ops in [false, true] {
+                                calls += 1;
+                                objects += 1;
+                                let ops_own: Vec<(Key, Option<Vh>)> = if with_ops { vec![(fam[*gi], Some(vh(*gi, 1)))] } else { vec![] };
+                                let ops_foreign: Vec<(Key, Option<Vh>)> = if with_ops { vec![(*g, Some(vh(fi, 1)))] } else { vec![] };
+                                let a = PathUpdate { inner: vp.clone(), ops: ops_own.clone() };
+                                let b = PathUpdate { inner: foreign.clone(), ops: ops_foreign.clone() };
+                                let upd = if foreign_first { vec![b, a] } else { vec![a, b] };
+                                if let Ok(Ok(r)) = std::panic::catch_unwind(std::panic::AssertUnwindSafe(|| verify_update::<H>(t.root, &upd))) {
+                                    let mut w = ops_own.clone();
+                                    w.extend(ops_foreign.iter().cloned());
+                                    w.sort_by(|x, y| x.0.cmp(&y.0));
+                                    w.dedup_by(|x, y| x.0 == y.0);
+                                    let truth = t.root_after(&w);
+                                    if r != truth && fam[*gi] != *g {
+                                        out.violation = Some(v(
+                                            "false-update-root",
+                                            format!("S={mask:#x}: verify_update accepted a batch holding a path verified against another root (key #{fi} of a neighbour trie next to key #{gi}) and returned {} but the true root is {}", hex(&r[..6]), hex(&truth[..6])),
+                                        ));
+                                        return out;
+                                    }
+                                }
+                            }
+                        }
+                    }
+                }
+            }
+        }
         // multi-proofs
         let multis = honest_multis(&t, qmax);
         let nb_multis: Vec<Vec<(Vec<usize>, MultiProof)>> = neighbours.iter().map(|n| honest_multis(n, qmax)).collect();
@@ -1407,6 +1451,46 @@ impl ProofX {
                                 }
                             }
                             Ok(Err(_)) => {}
+                        }
+                    }
+                }
+            }
+        }
+        // update batches that mix verified path proofs taken against DIFFERENT roots (this trie, its
+        // neighbours, the empty trie, a single-leaf trie, the full family), in every order, with
+        // and without operations: an error value (or a root) is expected, never a panic — in
+        // particular when one path is a strict prefix of the next one (a terminator high up in one
+        // trie followed by a leaf further down in another)
+        {
+            let mut others: Vec<Trie> = vec![Trie::new(mask ^ 1), Trie::new(mask ^ (1 << 11)), Trie::new(0), Trie::new(1 << (mask.trailing_zeros().min(11))), Trie::new((1 << fam.len()) - 1)];
+            others.retain(|o| o.root != t.root);
+            let mut verified: Vec<(usize, Key, nomt_core::proof::VerifiedPathProof)> = vec![];
+            for (ti, tr) in std::iter::once(&t).chain(others.iter()).enumerate() {
+                let mut seen: BTreeSet<Vec<bool>> = BTreeSet::new();
+                for g in fam.iter() {
+                    if let Ok(vp) = tr.honest(g).verify::<H>(g.view_bits::<Msb0>(), tr.root) {
+                        if seen.insert(vp.path().iter().map(|b| *b).collect()) {
+                            verified.push((ti, *g, vp));
+                        }
+                    }
+                }
+            }
+            let roots: Vec<Node> = std::iter::once(t.root).chain(others.iter().map(|o| o.root)).collect();
+            for (ta, ka, a) in verified.iter() {
+                for (tb, kb, b) in verified.iter() {
+                    if ta == tb {
+                        continue;
+                    }
+                    objects += 1;
+                    for (oa, ob) in [(false, false), (true, false), (false, true), (true, true)] {
+                        let upd = vec![
+                            PathUpdate { inner: a.clone(), ops: if oa { vec![(*ka, Some(vh(1, 1)))] } else { vec![] } },
+                            PathUpdate { inner: b.clone(), ops: if ob { vec![(*kb, None)] } else { vec![] } },
+                        ];
+                        for r in [roots[*ta], roots[*tb]] {
+                            if let Err(m) = guarded(|| verify_update::<H>(r, &upd)) {
+                                record("verify_update", "mixed-roots", m, &mut found);
+                            }
                         }
                     }
                 }
